@@ -18,7 +18,7 @@ import (
 // C08 — read limit and memory bounds hold for every sender.
 
 func init() {
-	register(&Prop{ID: "C08", Run: runC08, Quick: 5000, Thorough: 80000, Level: "exploration"})
+	register(&Prop{ID: "C08", Run: runC08, Quick: 5000, Thorough: 300000, Level: "exploration"})
 }
 
 var c08Limits = []int64{-2, 0, 1, 125, 126, 4096, 65536, 1 << 20, -1} // -2 = leave the default (32768)
